@@ -125,11 +125,11 @@ GetOk(b, h, g) ==
     ELSE FALSE
 
 Accessors(r) ==
-    (Has(r, "gets") /\ r.accepted /\ HdrFits(In(r)) /\ HdrChk(In(r), HdrAt(In(r)), 63)) =>
+    (Has(r, "gets") /\ r.accepted /\ HdrFits(In(r)) /\ HdrChkLoose(In(r), HdrAt(In(r)), 63)) =>
         \A k \in 1..Len(r.gets) : GetOk(In(r), HdrAt(In(r)), r.gets[k])
 
 \* which accessor of this event disagrees (for the reject reason)
-BadGets(r) == IF Has(r, "gets") /\ r.accepted /\ HdrFits(In(r)) /\ HdrChk(In(r), HdrAt(In(r)), 63)
+BadGets(r) == IF Has(r, "gets") /\ r.accepted /\ HdrFits(In(r)) /\ HdrChkLoose(In(r), HdrAt(In(r)), 63)
               THEN {r.gets[k].acc : k \in {j \in 1..Len(r.gets) : ~GetOk(In(r), HdrAt(In(r)), r.gets[j])}}
               ELSE {}
 
